@@ -199,6 +199,16 @@ func (r *Rec) Case(fp string, nontrivial bool, classes ...string) {
 		r.fps[FP(fp)] = struct{}{}
 	}
 
+	if len(r.samples) == 0 {
+		// never leave a run without a sample: the fingerprint is a descriptor of the actual case
+		d := fp
+		if len(d) > 600 {
+			d = d[:600] + "..."
+		}
+
+		r.samples = append(r.samples, map[string]any{"case": d})
+	}
+
 	for _, c := range classes {
 		r.classes[c]++
 	}
